@@ -166,7 +166,13 @@ def applyInstr (up : UpperOracle) (f : LFrame) (mask0 : Nat → Bool) (ins : Ins
         | some (src, rt, g) => if fkind c.ty == src then build rt (fun r => g c.cells[r]!) else .err
         | none => .err
       | .builtin name =>
-        if name == strBytes "ToUpper" && c.ty == .string then
+        if name == strBytes "ToUpper" && c.ty == .enum then
+          -- the value table is upper-cased (the column stays an enum, no longer strict)
+          if legalName ins.dst then
+            .ok (setCol f { name := ins.dst, ty := .enum, vals := c.vals.map up, strict := false,
+                            cells := c.cells.map (fun x => match x with | .str (some s) => .str (some (up s)) | y => y) })
+          else .err
+        else if name == strBytes "ToUpper" && c.ty == .string then
           -- the result is built as a packed string blob: rows outside the mask hold the empty string (the zero value)
           buildZ .string (.str (some [])) (fun r => match c.cells[r]! with | .str (some s) => .str (some (up s)) | x => x)
         else .err
@@ -188,6 +194,13 @@ def applyS (up : UpperOracle) (f : LFrame) (mask : Nat → Bool) (fillAll : Bool
   | i :: is => match applyInstr up f mask i fillAll with
     | .ok f' => applyS up f' mask fillAll is
     | .err => .err
+
+/-- Index of the first instruction that fails (the list length if none does). -/
+def firstFailing (up : UpperOracle) (f : LFrame) (mask : Nat → Bool) : List Instr → Nat
+  | [] => 0
+  | i :: is => match applyInstr up f mask i with
+    | .ok f' => 1 + firstFailing up f' mask is
+    | .err => 0
 
 def rowNumsS (f : LFrame) (name : Bytes) : Res :=
   if legalName name then
